@@ -3,9 +3,17 @@
 // mirror-symmetric.
 // Real code under test: lib/texellib/nn/nneval.{hpp,cpp}: NNEvaluator::setPiece/pushState/popState/forceFullEval/
 // computeL1WB/computeL1Out, getIndex, ptValue; Position (connected board).
-// Stubs: the vector kernels addSubWeights<256,20480> / copyVec<S16,256> / scaleClipPack are replaced by ONE-LANE models over
-// a symbolic weight table W[20480] and symbolic bias (wrapping 16-bit adds, exactly the generic kernel's per-lane arithmetic).
-// Because the equalities are demanded for all W, they hold iff the multisets of feature indices agree.
+// Stubs: the vector kernels addSubWeights<256,20480> / copyVec<S16,256> / scaleClipPack are replaced by models that record
+// WHICH weight rows are added / subtracted (signed list kept inside the accumulator storage, see below).  The accumulator
+// equals "bias + sum of the rows of the board's features" for every possible weight table iff the recorded signed multiset of
+// rows equals the multiset of the board's feature rows - and that is what is asserted, for a universally quantified row.
+// Bound: the evaluator's state stack has 2*MAX_SEARCH_DEPTH levels (200 in the engine).  CBMC cannot digest the 230 KB object,
+// so this unit is compiled with MAX_SEARCH_DEPTH = 2 (a 4-level stack); the code indexes the stack uniformly by stackTop and
+// the harness exercises depths 0..2.  (The macro renames the engine's own constant while constants.hpp is read.)
+#define MAX_SEARCH_DEPTH MAX_SEARCH_DEPTH_ENGINE
+#include "constants.hpp"
+#undef MAX_SEARCH_DEPTH
+namespace SearchConst { const int MAX_SEARCH_DEPTH = 2; }
 #include "bitBoard.cpp"
 #include "material.cpp"
 #include "position.cpp"
@@ -23,30 +31,25 @@ DEFINE_PARAM(kV);
 #include "../C01/oracle.h"
 
 static const int NFEAT = 32 * 10 * 64;
-// Lane 0 of every weight row is an uninterpreted function of the row index: the first read of a row draws an arbitrary
-// value, later reads of the same row return it again (so counterexamples replay natively with the same weights).
-#define MAXW 60
-static int wIdx[MAXW]; static S16 wVal[MAXW]; static int wN; static bool wOverflow;
-static S16 Wsym_(int i) {
-    for (int k = 0; k < MAXW; k++) if (k < wN && wIdx[k] == i) return wVal[k];
-    if (wN < MAXW) { wIdx[wN] = i; wVal[wN] = (S16)nondet_u16(); return wVal[wN++]; }
-    wOverflow = true; return 0;
-}
-struct WTab { S16 operator[](int i) const { return Wsym_(i); } };
-static WTab Wsym;
-static S16 BIASsym;          // lane 0 of the bias (symbolic, set per entry)
+// ---- abstraction of the accumulator contents.  The real code touches l1Out only through the two kernels below (and by whole
+// struct copies in pushState).  "l1Out == bias + sum of the weight rows of multiset M, for EVERY weight table" is equivalent to
+// "for every row f: (#times f was added) - (#times f was subtracted) since the last bias copy == multiplicity of f in M".
+// The harness picks ONE row gF nondeterministically BEFORE running the code (the code cannot depend on it), the kernel models
+// keep the net count of gF in lane 0 of l1Out (inside the real storage, so the real struct copies carry it), and the
+// assertions are about that count: proved for the solver-chosen gF, they hold for all rows.
+static int gF;
 static bool idxOutOfRange;
-
 typedef Vector<S16, 256> L1Vec;
 typedef Matrix<S16, NFEAT, 256> W1Mat;
+static int gCount(const L1Vec& v, int f) { return v(0); }            // (f is always gF)
 extern "C" void model_addSubWeights(L1Vec& l1Out, const W1Mat& w, const int* toAdd, int toAddLen, const int* toSub, int toSubLen) {
-    S16 acc = l1Out(0);
-    for (int k = 0; k < 32; k++) if (k < toAddLen) { int i = toAdd[k]; if (i < 0 || i >= NFEAT) { idxOutOfRange = true; continue; } acc = (S16)(acc + Wsym[i]); }
-    for (int k = 0; k < 32; k++) if (k < toSubLen) { int i = toSub[k]; if (i < 0 || i >= NFEAT) { idxOutOfRange = true; continue; } acc = (S16)(acc - Wsym[i]); }
-    if (toAddLen > 32 || toSubLen > 32) idxOutOfRange = true;
-    l1Out(0) = acc;
+    if (toAddLen < 0 || toAddLen > 32 || toSubLen < 0 || toSubLen > 32) { idxOutOfRange = true; return; }
+    int d = 0;
+    for (int k = 0; k < 32; k++) if (k < toAddLen) { int i = toAdd[k]; if (i < 0 || i >= NFEAT) idxOutOfRange = true; else if (i == gF) d++; }
+    for (int k = 0; k < 32; k++) if (k < toSubLen) { int i = toSub[k]; if (i < 0 || i >= NFEAT) idxOutOfRange = true; else if (i == gF) d--; }
+    l1Out(0) = (S16)(l1Out(0) + d);
 }
-extern "C" void model_copyVec(L1Vec& dst, const L1Vec& src) { dst(0) = BIASsym; }
+extern "C" void model_copyVec(L1Vec& dst, const L1Vec& src) { dst(0) = 0; }          // accumulator := bias (no rows added)
 static const void* clipSrc[2]; static S8* clipDst[2]; static int nclip;
 extern "C" void model_scaleClipPack(S8* out, const L1Vec& in) { if (nclip < 2) { clipDst[nclip] = out; clipSrc[nclip] = &in; } nclip++; }
 
@@ -55,28 +58,37 @@ alignas(64) static unsigned char netmem[64];   // never read: the kernels that w
 static NNEvaluator& rawNN() { return *reinterpret_cast<NNEvaluator*>(nnmem); }
 typedef NNEvaluator::FirstLayerState FLS;
 
-// from-scratch lane-0 value for perspective c and king square kSq: bias + sum over the non-king men of the board
-static S16 scratch(const Brd& b, int kSq, int c) {
-    S16 acc = BIASsym;
-    for (int k = 2; k < NMEN; k++) { int p = b.men[k].p; if (p != 0) acc = (S16)(acc + Wsym[getIndex(Square(kSq), NNEvaluator::ptValue[p], Square(b.men[k].s), c == 0)]); }
-    return acc;
+// multiplicity of row f among the features of board b seen from perspective c with the king on kSq
+static int boardCount(const Brd& b, int kSq, int c, int f) {
+    int n = 0;
+    for (int k = 2; k < NMEN; k++) { int p = b.men[k].p; if (p != 0 && getIndex(Square(kSq), NNEvaluator::ptValue[p], Square(b.men[k].s), c == 0) == f) n++; }
+    return n;
 }
-// the representation invariant of one perspective's state w.r.t. board b
-static bool inv(const FLS& s, const Brd& b, int c) {
+static int queueCount(const FLS& s, int f) {
+    int n = 0;
+    for (int i = 0; i < 4; i++) { if (i < s.toAddLen && s.toAdd[i] == f) n++; if (i < s.toSubLen && s.toSub[i] == f) n--; }
+    return n;
+}
+// the representation invariant of one perspective's state w.r.t. board b, for row f
+static bool invAt(const FLS& s, const Brd& b, int c, int f) {
     int k = s.kingSqComputed.asInt();
     if (k < 0 || k > 63) return k == -1;                 // invalid state: nothing to satisfy
     if (s.toAddLen < 0 || s.toAddLen > 4 || s.toSubLen < 0 || s.toSubLen > 4) return false;
-    S16 acc = s.l1Out(0);
-    for (int i = 0; i < 4; i++) if (i < s.toAddLen) { if (s.toAdd[i] < 0 || s.toAdd[i] >= NFEAT) return false; acc = (S16)(acc + Wsym[s.toAdd[i]]); }
-    for (int i = 0; i < 4; i++) if (i < s.toSubLen) { if (s.toSub[i] < 0 || s.toSub[i] >= NFEAT) return false; acc = (S16)(acc - Wsym[s.toSub[i]]); }
-    return acc == scratch(b, k, c);
+    return gCount(s.l1Out, f) + queueCount(s, f) == boardCount(b, k, c, f);
 }
-static void symbolicState(FLS& s) {
-    s.l1Out(0) = (S16)nondet_u16();
-    for (int i = 0; i < 4; i++) { s.toAdd[i] = nondet_int(); s.toSub[i] = nondet_int(); }
+// an arbitrary state that satisfies the invariant for EVERY row, built constructively: arbitrary pending queues, and the
+// accumulator list that makes up the difference to the board's features
+static void symbolicState(FLS& s, const Brd& b, int c) {
+    for (int i = 0; i < 4; i++) { s.toAdd[i] = nondet_int(); s.toSub[i] = nondet_int(); ASSUME(s.toAdd[i] >= 0 && s.toAdd[i] < NFEAT && s.toSub[i] >= 0 && s.toSub[i] < NFEAT); }
     s.toAddLen = nondet_int(); s.toSubLen = nondet_int();
-    s.kingSqComputed = Square(nondet_int());
+    ASSUME(s.toAddLen >= 0 && s.toAddLen <= 4 && s.toSubLen >= 0 && s.toSubLen <= 4);
+    int k = nondet_int(); ASSUME(k >= -1 && k < 64);
+    s.kingSqComputed = Square(k);
+    if (k >= 0) s.l1Out(0) = (S16)(boardCount(b, k, c, gF) - queueCount(s, gF));
+    else { s.l1Out(0) = (S16)nondet_u16(); s.toAddLen = 0; s.toSubLen = 0; }
 }
+static int anyRow() { return gF; }
+
 static Brd gB;
 static int setupCommon(NNEvaluator& nn, Position*& posOut, int topMax) {
     bool wtm = nondet_bool();
@@ -84,7 +96,7 @@ static int setupCommon(NNEvaluator& nn, Position*& posOut, int topMax) {
     Position& pos = buildPos(gB);
     nn.posP = &pos; pos.nnEval = &nn;
     *reinterpret_cast<const void**>(reinterpret_cast<char*>(&nn.posP) + sizeof(void*)) = netmem;   // the reference member netData
-    BIASsym = (S16)nondet_u16(); wN = 0; wOverflow = false;
+    gF = nondet_int(); ASSUME(gF >= 0 && gF < NFEAT);
     // the stack depth is a per-query constant: CBMC 6.11 loses accesses through pointers whose SYMBOLIC offset lands inside the
     // nested flState[depth][colour] aggregate (see DESIGN.md, 'known CBMC defect'); the code indexes the stack uniformly
     int top = (int)verif_param(); ASSUME(top >= 0 && top <= topMax);
@@ -129,8 +141,7 @@ void h_setpiece(void) {
     NNEvaluator& nn = rawNN(); Position* pos;
     int top = setupCommon(nn, pos, 2);
     FLS& s0 = nn.stack.flState[top][0]; FLS& s1 = nn.stack.flState[top][1];
-    symbolicState(s0); symbolicState(s1);
-    ASSUME(inv(s0, gB, 0) && inv(s1, gB, 1));
+    symbolicState(s0, gB, 0); symbolicState(s1, gB, 1);
     // the board change: man j (non-king) disappears / appears / changes kind on its square, as Position reports it
     int j = nondet_int(); ASSUME(j >= 2 && j < NMEN);
     int sq = gB.men[j].s, oldP = gB.men[j].p, newP = nondet_int();
@@ -140,10 +151,10 @@ void h_setpiece(void) {
     if (kingCall) { bool w = nondet_bool(); nn.setPiece(Square(gB.men[w ? 0 : 1].s), w ? Piece::WKING : Piece::BKING, Piece::EMPTY); }   // real
     else { nb.men[j].p = newP; nn.setPiece(Square(sq), oldP, newP); }                                                             // real
     verif_observe(s0.toAddLen); verif_observe(s0.toSubLen); verif_observe(s1.toAddLen); verif_observe(s1.toSubLen);
-    CHECK(inv(s0, nb, 0), "white-perspective state consistent with the changed board");
-    CHECK(inv(s1, nb, 1), "black-perspective state consistent with the changed board");
+    int f = anyRow();
+    CHECK(invAt(s0, nb, 0, f), "white-perspective state consistent with the changed board");
+    CHECK(invAt(s1, nb, 1, f), "black-perspective state consistent with the changed board");
     CHECK(nn.stack.stackTop == top, "stack depth unchanged");
-    CHECK(!wOverflow, "harness weight cache large enough");
     END();
 }
 
@@ -152,16 +163,15 @@ void h_compute(void) {
     NNEvaluator& nn = rawNN(); Position* pos;
     int top = setupCommon(nn, pos, 2);
     FLS& s0 = nn.stack.flState[top][0]; FLS& s1 = nn.stack.flState[top][1];
-    symbolicState(s0); symbolicState(s1);
-    ASSUME(inv(s0, gB, 0) && inv(s1, gB, 1));
+    symbolicState(s0, gB, 0); symbolicState(s1, gB, 1);
     nn.computeL1WB();                                                     // real
     verif_observe((U64)(U16)s0.l1Out(0)); verif_observe((U64)(U16)s1.l1Out(0));
+    int f = anyRow();
     CHECK(!idxOutOfRange, "all feature indices handed to the kernels are inside the weight table");
     CHECK(s0.kingSqComputed.asInt() == gB.men[0].s && s1.kingSqComputed.asInt() == gB.men[1].s, "states are for the actual king squares");
     CHECK(s0.toAddLen == 0 && s0.toSubLen == 0 && s1.toAddLen == 0 && s1.toSubLen == 0, "queues flushed");
-    CHECK(s0.l1Out(0) == scratch(gB, gB.men[0].s, 0), "white perspective equals the from-scratch accumulator");
-    CHECK(s1.l1Out(0) == scratch(gB, gB.men[1].s, 1), "black perspective equals the from-scratch accumulator");
-    CHECK(!wOverflow, "harness weight cache large enough");
+    CHECK(gCount(s0.l1Out, f) == boardCount(gB, gB.men[0].s, 0, f), "white perspective equals the from-scratch accumulator");
+    CHECK(gCount(s1.l1Out, f) == boardCount(gB, gB.men[1].s, 1, f), "black perspective equals the from-scratch accumulator");
     END();
 }
 
@@ -170,18 +180,18 @@ void h_pushpop(void) {
     NNEvaluator& nn = rawNN(); Position* pos;
     int top = setupCommon(nn, pos, 2);
     FLS& s0 = nn.stack.flState[top][0]; FLS& s1 = nn.stack.flState[top][1];
-    symbolicState(s0); symbolicState(s1);
-    ASSUME(inv(s0, gB, 0) && inv(s1, gB, 1));
+    symbolicState(s0, gB, 0); symbolicState(s1, gB, 1);
     int which = nondet_int(); ASSUME(which >= 0 && which <= 2);
+    int f = anyRow();
     if (which == 0) {
         nn.pushState();                                                   // real
         CHECK(!idxOutOfRange, "indices in range");
         CHECK(nn.stack.stackTop == top + 1, "push increments the depth");
         FLS& n0 = nn.stack.flState[top + 1][0]; FLS& n1 = nn.stack.flState[top + 1][1];
-        CHECK(inv(n0, gB, 0) && inv(n1, gB, 1), "the new top is consistent with the (unchanged) board");
-        CHECK(inv(s0, gB, 0) && inv(s1, gB, 1), "the saved level stays consistent with the board it was saved for");
-        CHECK(n0.toAddLen == s0.toAddLen && n0.toSubLen == s0.toSubLen && n0.kingSqComputed == s0.kingSqComputed && n0.l1Out(0) == s0.l1Out(0), "new top is a copy (white)");
-        CHECK(n1.toAddLen == s1.toAddLen && n1.toSubLen == s1.toSubLen && n1.kingSqComputed == s1.kingSqComputed && n1.l1Out(0) == s1.l1Out(0), "new top is a copy (black)");
+        CHECK(invAt(n0, gB, 0, f) && invAt(n1, gB, 1, f), "the new top is consistent with the (unchanged) board");
+        CHECK(invAt(s0, gB, 0, f) && invAt(s1, gB, 1, f), "the saved level stays consistent with the board it was saved for");
+        CHECK(n0.toAddLen == s0.toAddLen && n0.toSubLen == s0.toSubLen && n0.kingSqComputed == s0.kingSqComputed && gCount(n0.l1Out, f) == gCount(s0.l1Out, f), "new top is a copy (white)");
+        CHECK(n1.toAddLen == s1.toAddLen && n1.toSubLen == s1.toSubLen && n1.kingSqComputed == s1.kingSqComputed && gCount(n1.l1Out, f) == gCount(s1.l1Out, f), "new top is a copy (black)");
     } else if (which == 1) {
         // remember the level below
         FLS below0, below1;
@@ -190,8 +200,8 @@ void h_pushpop(void) {
         if (top > 0) {
             CHECK(nn.stack.stackTop == top - 1, "pop decrements the depth");
             FLS& p0 = nn.stack.flState[top - 1][0]; FLS& p1 = nn.stack.flState[top - 1][1];
-            CHECK(p0.l1Out(0) == below0.l1Out(0) && p0.toAddLen == below0.toAddLen && p0.toSubLen == below0.toSubLen && p0.kingSqComputed == below0.kingSqComputed, "pop does not alter the restored level (white)");
-            CHECK(p1.l1Out(0) == below1.l1Out(0) && p1.toAddLen == below1.toAddLen && p1.toSubLen == below1.toSubLen && p1.kingSqComputed == below1.kingSqComputed, "pop does not alter the restored level (black)");
+            CHECK(gCount(p0.l1Out, f) == gCount(below0.l1Out, f) && p0.toAddLen == below0.toAddLen && p0.toSubLen == below0.toSubLen && p0.kingSqComputed == below0.kingSqComputed, "pop does not alter the restored level (white)");
+            CHECK(gCount(p1.l1Out, f) == gCount(below1.l1Out, f) && p1.toAddLen == below1.toAddLen && p1.toSubLen == below1.toSubLen && p1.kingSqComputed == below1.kingSqComputed, "pop does not alter the restored level (black)");
         } else {
             CHECK(nn.stack.stackTop == 0, "underflow keeps depth 0");
             CHECK(!nn.stack.flState[0][0].kingSqComputed.isValid() && !nn.stack.flState[0][1].kingSqComputed.isValid(), "stack underflow (e.g. after position assignment) forces a full refresh");
@@ -204,7 +214,6 @@ void h_pushpop(void) {
         CHECK(!nn.stack.flState[t2][0].kingSqComputed.isValid() && !nn.stack.flState[t2][1].kingSqComputed.isValid(), "forceFullEval invalidates both perspectives");
         CHECK(nn.stack.flState[t2][0].toAddLen == 0 && nn.stack.flState[t2][0].toSubLen == 0 && nn.stack.flState[t2][1].toAddLen == 0 && nn.stack.flState[t2][1].toSubLen == 0, "queues cleared");
     }
-    CHECK(!wOverflow, "harness weight cache large enough");
     END();
 }
 
